@@ -20,7 +20,7 @@ Seed == atoi(IOEnv.SEED) % 30011
 \* folding round at 64, one more per 64 bytes; slice-by-8 / slice-by-4 prologue and tail lengths;
 \* SHA-256 padding boundaries 55/56/63/64 and multiples)
 Lens0to320 == 0..320
-Lens0to700 == 0..700
+Lens0to520 == 0..520
 Edges == {1, 7, 8, 9, 15, 16, 17, 31, 32, 33, 47, 48, 63, 64, 65, 79, 80, 111, 112, 119, 120, 127, 128, 129,
           191, 192, 193, 255, 256, 257, 319, 320}
 Big3 == {4095, 4096, 4097}
